@@ -21,8 +21,9 @@ with open(os.path.join(os.path.dirname(HERE), "rejections_allowed.json")) as _f:
 
 
 def rejection_allowed(op, mech):
+    parts = op.split(":")
     for e in _ALLOWED:
-        if e["mechanism"] == mech and (e.get("op") in (None, "*", op) or op.startswith(e.get("op", "") + ":")):
+        if e["mechanism"] == mech and (e.get("op") in (None, "*", op) or e.get("op") in parts):
             return True
     return False
 
